@@ -16,7 +16,9 @@ Definition lmn_server := "protocol/localmessagenotification/server.go".
    predicted: the function must own a point that no signal can release. *)
 Record case := { k_file : string; k_func : string; k_hung : bool }.
 Definition all_roots : list (string * string) :=
-  flat_map (fun f => map (fun x => (f, fst (snd x))) (roots (sysof f) init_signals)) proto_files.
+  app (flat_map (fun f => map (fun x => (f, fst (snd x))) (roots (sysof f) init_signals)) proto_files)
+      (* a function that returns with a mutex held parks everybody who needs that mutex *)
+      (map (fun l => (l_file l, l_func l)) (filter (fun l => negb (l_released l)) locks)).
 Definition check_with (r : list (string * string)) (c : case) : bool :=
   if k_hung c then existsb (fun e => String.eqb (fst e) (k_file c) && String.eqb (snd e) (k_func c)) r else true.
 Definition mismatches (cs : list case) : list nat :=
